@@ -16,6 +16,13 @@ BG = "magpylib/_src/obj_classes/class_BaseGeo.py"
 # (property, name, file, old, new, expect)   expect: "red" | "equivalent" (must stay green)
 FD = "magpylib/_src/fields/"
 MUTANTS = [
+    ("C12", "cuboid-absolute-surface-tol", FD + "field_BH_cuboid.py", "    mask_inside_x = x_dist < RTOL_SURFACE * a", "    mask_inside_x = x_dist < 1e-12", "red"),
+    ("C12", "cylinder-z-not-dimensionless", FD + "field_BH_cylinder.py", "    z = z / r0\n    z0 = z0 / r0", "    z0 = z0 / r0", "red"),
+    ("C12", "circle-absolute-singularity-tol", FD + "field_BH_circle.py", "abs(r - r0) < 1e-15 * r0", "abs(r - r0) < 1e-15", "red"),
+    ("C12", "sphere-absolute-margin", FD + "field_BH_sphere.py", "    out = r > r_sphere", "    out = r > r_sphere + 1e-13", "red"),
+    ("C12", "circle-axis-power", FD + "field_BH_circle.py", "(z[mask4] ** 2 + r0[mask4] ** 2) ** (3 / 2)", "(z[mask4] ** 2 + r0[mask4] ** 2)", "red"),
+    ("C12", "cylinder-polxy-squared", FD + "field_BH_cylinder.py", "        pol_xy = np.sqrt(pol_x**2 + pol_y**2)[mask_pol_tv]", "        pol_xy = (pol_x**2 + pol_y**2)[mask_pol_tv]", "red"),
+    ("C12", "segment-new-absolute-tol", FD + "field_BH_cylinder_segment.py", "    mask_r_in = (r1 - 1e-14 < r) & (r < r2 + 1e-14)", "    mask_r_in = (r1 - 1e-9 < r) & (r < r2 + 1e-9)", "red"),
     ("C06", "segment-early-return-before-JM", FD + "field_BH_cylinder_segment.py",
      '    if field == "J":\n        BHJM[~mask_inside] = 0\n        return BHJM\n\n    if field == "M":\n        BHJM[~mask_inside] = 0\n        return BHJM / MU0\n\n    # return 0 when all points are on surface\n    if not np.any(mask_not_on_surf):\n        return BHJM * 0\n',
      '    # return 0 when all points are on surface\n    if not np.any(mask_not_on_surf):\n        return BHJM * 0\n\n    if field == "J":\n        BHJM[~mask_inside] = 0\n        return BHJM\n\n    if field == "M":\n        BHJM[~mask_inside] = 0\n        return BHJM / MU0\n', "red"),
